@@ -4,7 +4,8 @@ import refdoc as R
 import refxpath as X
 from refxpath import num, s, fn, b, step, path, name, NODE, TEXTT, COMMENTT, PIT, WILD, DOS
 
-NSMAP = {'p': 'u1', 'q': 'u2'}
+NSMAP = {'p': 'u1', 'q': 'u2', 'set': 'http://exslt.org/sets', 'math': 'http://exslt.org/math', 'str': 'http://exslt.org/strings',
+         'exsl': 'http://exslt.org/common', 'dyn': 'http://exslt.org/dynamic', 'xalan': 'http://xml.apache.org/xalan'}
 
 
 def docs():
